@@ -702,6 +702,12 @@ class Interp:
         sa, sb = isinstance(a, Sym), isinstance(b, Sym)
         if not sa and not sb:
             if isinstance(a, Opaque) or isinstance(b, Opaque):
+                dunder = {ast.Add: 'add', ast.Sub: 'sub', ast.Mult: 'mul', ast.Mod: 'mod', ast.Div: 'truediv',
+                          ast.FloorDiv: 'floordiv', ast.BitOr: 'or', ast.BitAnd: 'and'}.get(opcls)
+                if dunder and isinstance(a, Opaque) and self.reg.opaque_has(self, a, '__%s__' % dunder):
+                    return self.reg.call_opaque(self, a, '__%s__' % dunder, [b], {})
+                if dunder and isinstance(b, Opaque) and self.reg.opaque_has(self, b, '__r%s__' % dunder):
+                    return self.reg.call_opaque(self, b, '__r%s__' % dunder, [a], {})
                 raise Unsupported('binary operator on opaque object')
             if opcls is ast.Mod and isinstance(a, str) and contains_sym(b):
                 return SStr(self.st.fresh_str('fmt'))
@@ -1444,7 +1450,14 @@ class Interp:
             # list += iterable mutates in place
             if isinstance(val, (SOpt, SChoice)):
                 val = self.resolve(val)
+            if isinstance(val, SList):
+                raise Unsupported('concrete list += symbolic-length sequence')
             cur.extend(list(self.iterate(val)))
+            return cur
+        if opcls is ast.Add and isinstance(cur, SList):
+            # list += iterable mutates in place
+            from . import seqs
+            seqs.method(self, cur, 'extend', [val], {})
             return cur
         return self.binop(opcls, cur, val)
 
